@@ -124,6 +124,8 @@ def entry_members(entries, jail_dest, outside):
         name = name.replace("{IN}", jail_dest).replace("{OUT}", outside)
         if kind == "file":
             ms.append({"name": name, "kind": "file", "data": b"EVIL-%d" % i, "attr": ref7z.unix_attr("file", 0o644), "mtime": T0})
+        elif kind == "empty":  # zero-length file stored without a stream (EmptyStream + EmptyFile), as 7-Zip writes it
+            ms.append({"name": name, "kind": "emptyfile", "data": b"", "attr": ref7z.unix_attr("file", 0o644), "mtime": T0})
         elif kind == "dir":
             ms.append({"name": name, "kind": "dir", "data": None, "attr": ref7z.unix_attr("dir", 0o777), "mtime": T0})
         else:
@@ -172,7 +174,7 @@ def run_case(entries, config, wd):
     top, root, jail, dest, outside = reset_world(wd, initial)
     install_guard(top)
     members = entry_members(entries, dest, outside)
-    data_idx = [i for i, m in enumerate(members) if m["kind"] != "dir"]
+    data_idx = [i for i, m in enumerate(members) if m["kind"] in ("file", "symlink")]
     if opened == "stream":
         L = {"folders": [data_idx] if data_idx else [], "chains": [[("COPY", {})]] if data_idx else []}
     else:
@@ -249,6 +251,7 @@ def entry_types(name_list, targets=TARGETS, earlier=()):
     out = []
     for n in name_list:
         out.append((n, "file", None))
+        out.append((n, "empty", None))
         out.append((n, "dir", None))
         for t in list(targets) + list(earlier):
             out.append((n, "symlink", t))
@@ -303,15 +306,17 @@ def gen_cases(plane, tier):
                     yield [e1, e2, e3], CONFIGS[(i + 3 * j + 7 * k) % len(CONFIGS)]
     elif plane == "chains":
         # 4..5 entries: link chains and files written through earlier links
-        nl = ["a", "b", "a/b", "a/b/c" if False else "b/a"]
-        links = [(n, "symlink", t) for n in ["a", "b", "a/b", "b/a", "a/a", "b/b"] for t in ([".", "..", "a", "b", "../sibling.txt"] if tier == "quick" else [".", "..", "../sibling.txt"])]
-        files = [(n, "file", None) for n in ["a/evil", "b/evil", "a/b/evil", "b/a/evil", "a/a/evil", "evil", "a", "b", "a/b", "b/a"]]
-        n = 3 if tier == "quick" else 4
-        for ls in itertools.product(links, repeat=n):
-            if len({x[0] for x in ls}) < n:
-                continue
-            for f in files:
-                yield list(ls) + [f], CONFIGS[0]
+        files = [(n, k, None) for n in ["a/evil", "b/evil", "a/b/evil", "b/a/evil", "a/a/evil", "evil", "a", "b", "a/b", "b/a", "./a", "./b", "b/.", "a/", "./a/b"] for k in ("file", "empty")]
+        plans = [(2, ["a", "b", "a/b", "b/a", "a/a"], [".", "..", "a", "b", "a/..", "../sibling.txt"]), (3, ["a", "b", "a/b", "b/a"], [".", "..", "a/..", "../sibling.txt"])]
+        if tier != "quick":
+            plans = [(2, ["a", "b", "a/b", "b/a", "a/a", "b/b"], TARGETS), (3, ["a", "b", "a/b", "b/a", "a/a", "b/b"], [".", "..", "a", "a/..", "../sibling.txt"]), (4, ["a", "b", "a/b", "b/a"], [".", "..", "a/.."])]
+        for n, lnames, ltargets in plans:
+            links = [(nm, "symlink", t) for nm in lnames for t in ltargets]
+            for ls in itertools.product(links, repeat=n):
+                if len({x[0] for x in ls}) < n:
+                    continue
+                for f in files:
+                    yield list(ls) + [f], CONFIGS[0]
 
 
 def shard(task):
@@ -326,6 +331,7 @@ def shard(task):
             sh.note("harness_errors", f"{type(ex).__name__}: {str(ex)[:80]}")
             continue
         hostile = any(".." in (n + "/" + (t or "")) or n.startswith("/") or "{" in n + (t or "") or k == "symlink" for n, k, t in entries)
+        sh.note("entry_kinds", "+".join(sorted({k for _, k, _ in entries})))
         sh.case((entries, cfg), nontrivial=hostile, sample={"entries": entries, "config": cfg} if len(sh.samples) < 1 and len(entries) > 1 and hostile else None)
         for sym, msg in r:
             sh.violation({"symptom": sym, "shape": canon_shape(entries), "opened": cfg[2].split("-")[0]}, f"{entries} config={cfg}: {msg}", {"entries": entries, "config": list(cfg)})
